@@ -68,7 +68,10 @@ impl RawGraph {
     /// Bring a decoded description into the domain of `raw_graph(min_n, max_n, max_m, directed)`
     /// (fuzz entry / from-bytes generators).
     pub fn sanitize(&mut self, min_n: u8, max_n: u8, max_m: usize, directed: Option<bool>) {
-        self.n = min_n + self.n % (max_n - min_n + 1);
+        // identity on values that are in the domain already (the seed corpus must decode unchanged)
+        if self.n < min_n || self.n > max_n {
+            self.n = min_n + self.n % (max_n - min_n + 1);
+        }
         self.keys.resize(self.n as usize, 0);
         self.edges.truncate(max_m);
         self.shape %= SHAPES;
